@@ -9,6 +9,7 @@ package tree
 // (leaves 0), pidx (index in the parent's children).
 
 //@ ghost btree.nodes set[*node[K, V]]
+//@ ghost btree.dead set[*node[K, V]]
 //@ ghost node.owner *btree[K, V]
 //@ ghost node.height int
 //@ ghost node.pidx int
@@ -32,6 +33,16 @@ package tree
 //@        && (j > x.n ==> x.children[j] == nil))
 //@   && (forall x *node[K, V], i int {x.keys[i]} :: t.nodes[x] && x.n <= i && i < 15 ==> x.keys[i] == zero(K))
 //@   && (forall x *node[K, V], i int {x.values[i]} :: t.nodes[x] && x.n <= i && i < 15 ==> x.values[i] == zero(V))
+
+// ---- unlinked nodes (C02): a node that leaves the tree (merged away, collapsed root) keeps n == 0 for ever,
+// which is how a cursor parked in it notices that it is lost ----
+//@ pred deadOK(t) = !t.dead[nil] && (forall x *node[K, V] {t.dead[x]} :: t.dead[x] ==> alloc(x) && x.n == 0 && !t.nodes[x])
+// nodes only ever move from live to dead
+//@ pred popGrows(t) = (forall c *node[K, V] {t.dead[c]} :: old(t.dead)[c] ==> t.dead[c]) && (forall c *node[K, V] {t.nodes[c]} {old(t.nodes)[c]} :: old(t.nodes)[c] ==> t.nodes[c] || t.dead[c])
+// the generation did not move: nothing a parked cursor looks at has changed
+//@ pred sameShape(t) = t.root == old(t.root) && t.nodes == old(t.nodes) && t.dead == old(t.dead)
+//@   && (forall c *node[K, V] {c.n} :: c.n == old(c.n))
+//@   && (forall c *node[K, V], j int {c.keys[j]} :: 0 <= j && j < 15 ==> c.keys[j] == old(c.keys[j]))
 
 // ---- array primitives ----
 
@@ -88,8 +99,9 @@ package tree
 //@   requires compare != nil
 //@   ghost result.root.owner := result
 //@   ghost result.nodes := single(result.root)
+//@   ghost result.dead := lambda x *node[K, V] :: false
 //@   ghost result.root.height := 0
-//@   ensures fresh(result) && result.size == 0 && result.gen == 0 && result.compare == compare && structOK(result, nil, nil) && result.root.n == 0
+//@   ensures fresh(result) && result.size == 0 && result.gen == 0 && result.compare == compare && structOK(result, nil, nil) && result.root.n == 0 && deadOK(result)
 
 // ---- read paths: structure only (no panic, one searchNode per level) ----
 
@@ -127,9 +139,11 @@ package tree
 //@   props C03
 //@   noalloc
 //@   requires structOK(t, nil, nil) && t.nodes[x] && x.height == 0 && x.n < 15
+//@   requires C02: deadOK(t)
 //@   modifies x.n, x.keys, x.values
 //@   loop 0: invariant 0 <= idx && idx <= x.n
 //@   ensures structOK(t, nil, nil) && x.n == old(x.n) + 1
+//@   ensures C02: deadOK(t)
 
 //@ func btree.siblings
 //@   props C03
@@ -143,30 +157,36 @@ package tree
 //@   props C03
 //@   noalloc
 //@   requires structOK(t, right, nil) && t.nodes[left] && t.nodes[right] && left != t.root && right != t.root && left.parent == right.parent && right.pidx == left.pidx + 1
+//@   requires C02: deadOK(t)
 //@   requires left.n > 7 && right.n < 15
 //@   modifies left.n, right.n, left.keys, left.values, left.children, right.keys, right.values, right.children, left.parent.keys, left.parent.values, left.children[left.n].parent, all(left.pidx)
 //@   after call insertOne[2]: ghostmap c *node[K, V] . pidx := (c != nil && c == old(left.children[left.n])) ? 0 : ((c != nil && old(c.parent) == right && t.nodes[c]) ? old(c.pidx) + 1 : old(c.pidx))
 //@   ensures structOK(t, nil, nil) && left.n == old(left.n) - 1 && right.n == old(right.n) + 1 && t.nodes == old(t.nodes) && t.root == old(t.root)
+//@   ensures C02: deadOK(t)
 
 //@ func btree.rotateLeft
 //@   props C03
 //@   noalloc
 //@   requires structOK(t, left, nil) && t.nodes[left] && t.nodes[right] && left != t.root && right != t.root && left.parent == right.parent && right.pidx == left.pidx + 1
+//@   requires C02: deadOK(t)
 //@   requires right.n > 7 && left.n < 15
 //@   modifies left.n, right.n, left.keys, left.values, left.children, right.keys, right.values, right.children, right.parent.keys, right.parent.values, right.children[0].parent, all(left.pidx)
 //@   after call removeOne[2]: ghostmap c *node[K, V] . pidx := (c != nil && c == old(right.children[0])) ? old(left.n) + 1 : ((c != nil && old(c.parent) == right && t.nodes[c]) ? old(c.pidx) - 1 : old(c.pidx))
 //@   ensures structOK(t, nil, nil) && left.n == old(left.n) + 1 && right.n == old(right.n) - 1 && t.nodes == old(t.nodes) && t.root == old(t.root)
+//@   ensures C02: deadOK(t)
 
 //@ func btree.steal
 //@   props C03
 //@   noalloc
 //@   requires structOK(t, x, nil) && t.nodes[x] && x.n < 15
+//@   requires C02: deadOK(t)
 //@   modifies all(x.n), all(x.keys), all(x.values), all(x.children), all(x.parent), all(x.pidx)
 //@   ensures t.nodes == old(t.nodes) && t.root == old(t.root)
 //@   ensures result ==> structOK(t, nil, nil) && x.n == old(x.n) + 1
 //@   ensures !result ==> structOK(t, x, nil) && x.n == old(x.n) && (x != t.root ==> (x.pidx > 0 ==> x.parent.children[x.pidx-1].n <= 7) && (x.pidx < x.parent.n ==> x.parent.children[x.pidx+1].n <= 7))
 //@   ensures !result ==> (forall c *node[K, V] {c.parent} :: c.parent == old(c.parent)) && (forall c *node[K, V] {c.pidx} :: c.pidx == old(c.pidx)) && (forall c *node[K, V] {c.n} :: c.n == old(c.n))
 //@   ensures !result ==> (forall c *node[K, V], j int {c.children[j]} :: 0 <= j && j <= 15 ==> c.children[j] == old(c.children[j]))
+//@   ensures C02: deadOK(t)
 
 // merge / mergeTwo are mutually recursive: each is verified against the other's contract.
 //@ pred sibsSmall(x) = (x.pidx > 0 ==> x.parent.children[x.pidx-1].n <= 7) && (x.pidx < x.parent.n ==> x.parent.children[x.pidx+1].n <= 7)
@@ -175,39 +195,49 @@ package tree
 //@   props C03
 //@   noalloc
 //@   requires structOK(t, x, nil) && t.nodes[x] && x != t.root && x.n <= 6 && sibsSmall(x)
-//@   modifies t.root, t.nodes, all(x.n), all(x.keys), all(x.values), all(x.children), all(x.parent), all(x.pidx)
+//@   requires C02: deadOK(t)
+//@   modifies t.root, t.nodes, all(x.n), all(x.keys), all(x.values), all(x.children), all(x.parent), all(x.pidx), t.dead
 //@   ensures structOK(t, nil, nil)
 //@   ensures forall c *node[K, V] {t.nodes[c]} :: t.nodes[c] ==> old(t.nodes)[c]
+//@   ensures C02: deadOK(t) && popGrows(t)
 
 //@ func btree.mergeTwo
 //@   props C03
 //@   noalloc
 //@   requires structOK(t, left.n < 7 ? left : right, nil) && t.nodes[left] && t.nodes[right] && left != t.root && right != t.root
+//@   requires C02: deadOK(t)
 //@   requires left.parent == right.parent && right.pidx == left.pidx + 1 && left.n + right.n <= 14
-//@   modifies t.root, t.nodes, all(left.n), all(left.keys), all(left.values), all(left.children), all(left.parent), all(left.pidx)
+//@   modifies t.root, t.nodes, all(left.n), all(left.keys), all(left.values), all(left.children), all(left.parent), all(left.pidx), t.dead
 //@   loop 0: invariant 0 <= i && i <= right.n + 1 && (forall c *node[K, V] {c.parent} :: c.parent == ((old(c.parent) == right && t.nodes[c] && old(c.pidx) < i) ? left : old(c.parent)))
 //@   after call removeOne[2]: ghostmap c *node[K, V] . pidx := (old(c.parent) == right && t.nodes[c]) ? old(c.pidx) + old(left.n) + 1 : ((old(c.parent) == old(left.parent) && t.nodes[c] && old(c.pidx) > old(right.pidx)) ? old(c.pidx) - 1 : old(c.pidx))
 //@   after call removeOne[2]: ghost t.nodes := store(t.nodes, right, false)
 //@   ghost t.nodes := (t.root == left && old(left.parent) == old(t.root)) ? store(t.nodes, old(t.root), false) : t.nodes
 //@   ensures structOK(t, nil, nil)
 //@   ensures forall c *node[K, V] {t.nodes[c]} :: t.nodes[c] ==> old(t.nodes)[c]
+//@   ensures C02: deadOK(t) && popGrows(t)
+//@   after call removeOne[2]: ghost t.dead := store(t.dead, right, true)
+//@   ghost t.dead := (t.root == left && old(left.parent) == old(t.root)) ? store(t.dead, old(t.root), true) : t.dead
 
 //@ func btree.removeRightmost
 //@   props C03
 //@   noalloc
 //@   requires structOK(t, nil, nil) && t.nodes[x] && x != t.root
+//@   requires C02: deadOK(t)
 //@   modifies all(x.n), all(x.keys), all(x.values)
 //@   ensures result2 == nil ==> structOK(t, nil, nil)
 //@   ensures result2 != nil ==> structOK(t, result2, nil) && t.nodes[result2] && result2 != t.root && result2.n < 7 && result2.height == 0
 //@   ensures forall c *node[K, V] {c.n} :: c.height > 0 ==> c.n == old(c.n)
+//@   ensures C02: deadOK(t)
 
 //@ func btree.Delete
 //@   props C03
 //@   noalloc
 //@   requires structOK(t, nil, nil)
-//@   modifies t.size, t.gen, t.root, t.nodes, all(t.root.n), all(t.root.keys), all(t.root.values), all(t.root.children), all(t.root.parent), all(t.root.pidx)
+//@   requires C02: deadOK(t)
+//@   modifies t.size, t.gen, t.root, t.nodes, all(t.root.n), all(t.root.keys), all(t.root.values), all(t.root.children), all(t.root.parent), all(t.root.pidx), t.dead
 //@   loop 0: invariant curr != nil && t.nodes[curr] && structOK(t, nil, nil)
 //@   ensures structOK(t, nil, nil)
+//@   ensures C02: deadOK(t) && popGrows(t) && ((t.gen == old(t.gen) && sameShape(t)) || t.gen == old(t.gen) + 1)
 
 // ---- amalgam1: a read-only view of a full node plus one extra key/value/child ----
 
@@ -259,8 +289,9 @@ package tree
 //@ func btree.overfill
 //@   props C03
 //@   requires pendOK(t, x, afterK)
+//@   requires C02: deadOK(t)
 //@   modifies t.root, t.nodes, all(x.n), all(x.keys), all(x.values), all(x.children), all(x.parent), all(x.pidx), all(x.owner), all(x.height)
-//@   loop 0: invariant pendOK(t, x, afterK)
+//@   loop 0: invariant pendOK(t, x, afterK) && deadOK(t) && (forall c *node[K, V] {t.nodes[c]} {old(t.nodes)[c]} :: old(t.nodes)[c] ==> t.nodes[c])
 //@   after assign right[0]: ghost right.owner := t
 //@   after assign right[0]: ghost right.height := x.height
 //@   after assign right[0]: ghost t.nodes := store(t.nodes, right, true)
@@ -284,10 +315,14 @@ package tree
 //@   after assign parent[0]: ghost right.pidx := 1
 //@   after call insertOne[2]: ghostmap c *node[K, V] . pidx := c == right ? left.pidx + 1 : ((c.parent == left.parent && t.nodes[c] && c.pidx > left.pidx) ? c.pidx + 1 : c.pidx)
 //@   ensures structOK(t, nil, nil)
+//@   ensures C02: deadOK(t)
+//@   ensures C02: forall c *node[K, V] {t.nodes[c]} {old(t.nodes)[c]} :: old(t.nodes)[c] ==> t.nodes[c]
 
 //@ func btree.Put
 //@   props C03
 //@   requires structOK(t, nil, nil)
+//@   requires C02: deadOK(t)
 //@   modifies t.size, t.gen, t.root, t.nodes, all(t.root.n), all(t.root.keys), all(t.root.values), all(t.root.children), all(t.root.parent), all(t.root.pidx), all(t.root.owner), all(t.root.height)
 //@   loop 0: invariant curr != nil && t.nodes[curr] && structOK(t, nil, nil)
 //@   ensures structOK(t, nil, nil)
+//@   ensures C02: deadOK(t) && popGrows(t) && ((t.gen == old(t.gen) && sameShape(t)) || t.gen == old(t.gen) + 1)
